@@ -76,6 +76,9 @@ type event struct {
 // while every thread is parked.
 type Namer interface {
 	Name(m *vsync.RWMutex) int
+	// Sync is called after every step, so that nodes created by the step are numbered
+	// before any later step creates more.
+	Sync()
 }
 
 // S is one execution.
@@ -242,6 +245,7 @@ func (s *S) wait(t *Thread) {
 		panic("sched: event from a thread that should not be running")
 	}
 	s.cur = nil
+	s.namer.Sync()
 	if ev.kind == 0 {
 		t.reqID = s.namer.Name(t.req.m)
 	}
